@@ -1656,12 +1656,20 @@ pub mod verif_trace {
     pub fn enabled() -> bool {
         LOG.with(|l| l.borrow().is_some())
     }
+    /// more records than this between two `take()`s means a stream call is not terminating
+    pub const LIMIT: usize = 1 << 16;
     pub fn push(r: Rec) {
-        LOG.with(|l| {
+        let overflow = LOG.with(|l| {
             if let Some(v) = l.borrow_mut().as_mut() {
-                v.push(r)
+                v.push(r);
+                v.len() > LIMIT
+            } else {
+                false
             }
         });
+        if overflow {
+            panic!("verif_trace: more than 65536 back-end invocations in one stream call (non-termination)");
+        }
     }
 }
 
